@@ -397,6 +397,12 @@ def run(ctx):
     r4.expect_min(6)
 
     # ---------------------------------------------------------------- 5. limit guards
+    r7 = rep.rule('C20.7-output-buffering', 'R-BOUND', 'substdio_put / substdio_bput on a 16-byte buffer with 0, 3 or 16 bytes buffered and 0..20000 bytes put: every store stays inside the buffer, and bytes written + bytes buffered = bytes handed in')
+    from rules import libtab
+    for inst, v in sorted(libtab.substdio_put_sites(db, rep, db.program('qmail-smtpd')).items()):
+        r7.check(v[0], inst, v[1], v[2], v[3])
+    r7.expect_min(4)
+
     r6 = rep.rule('C20.6-two-pass-parsers', 'R-BOUND', 'token822_parse: for every header text up to 3 bytes over the lexically relevant bytes (and quoted pairs in comments, quoted strings, domain literals and atoms) the filling pass stores only inside the token and text buffers sized by the counting pass, and no pass reads beyond the field')
     for inst, v in sorted(parse_bounds_sites(db, rep, maxlen=ctx.deep(3, 4)).items()):
         r6.check(v[0], inst, v[1], v[2], v[3])
